@@ -249,13 +249,14 @@ IPAddress deadServer() {
 struct World {
   std::unique_ptr<tbox::event::Loop> loop;
   std::unique_ptr<Probe> dns;
-  bool outstanding = false; uint16_t id = 0;
+  bool outstanding = false, preissued = false; uint16_t id = 0;
   int cbs = 0; DnsRequest::Result last;
   World() : loop(tbox::event::Loop::New()) { dns.reset(new Probe(loop.get(), DnsRequest::IPAddressVec{deadServer()})); }
   ~World() { dns.reset(); loop.reset(); }
   std::string ensureLookup(bool preissue) {
     if (outstanding) return "";
-    if (preissue) {
+    if (preissue && !preissued) {
+      preissued = true;   // once per case: ~43 000 request()/cancel() pairs
       // make the outstanding lookup's id equal to the byte pattern an uninitialised id reads as
       std::vector<uint16_t> ids;
       while ((uint16_t)(id + 1) != kPatternId) { id = dns->request(DomainName("x.example"), [](const DnsRequest::Result &) {}); ids.push_back(id); if (ids.size() > 70000) break; }
@@ -368,6 +369,17 @@ std::string run(const Scenario &s, CaseInfo &info) {
     write_file(name, f);
   }
   World W;
+  if (sweep) {   // every proper prefix first (shortest first, so that with `preissue` lookup 0xAAAA is still outstanding for the 0..3 byte ones)
+    info.cls("truncation_sweep");
+    size_t step = dg.size() > 700 ? dg.size() / 350 : 1;
+    for (size_t len = 0; len < dg.size(); len += step) {
+      Bytes part(dg.begin(), dg.begin() + (long)len);
+      FeedStats f2;
+      std::string e2 = feedOne(W, part, cfg, info, f2);
+      if (!e2.empty()) return "truncated to " + std::to_string(len) + " of " + std::to_string(dg.size()) + " bytes: " + e2;
+      if (f2.cut) info.nontrivial = true;
+    }
+  }
   FeedStats fs;
   std::string err = feedOne(W, dg, cfg, info, fs);
   if (!err.empty()) return err;
@@ -382,18 +394,7 @@ std::string run(const Scenario &s, CaseInfo &info) {
   info.cls_if(fs.tiny, "shorter_than_header");
   info.cls_if(!fs.matched, "id_mismatch");
   info.cls_if(cfg.preissue, "id_is_0xAAAA");
-  info.nontrivial = fs.ptr || fs.cut;
-  if (sweep) {
-    info.cls("truncation_sweep");
-    size_t step = dg.size() > 700 ? dg.size() / 350 : 1;
-    for (size_t len = 0; len < dg.size(); len += step) {
-      Bytes part(dg.begin(), dg.begin() + (long)len);
-      FeedStats f2;
-      err = feedOne(W, part, cfg, info, f2);
-      if (!err.empty()) return "truncated to " + std::to_string(len) + " of " + std::to_string(dg.size()) + " bytes: " + err;
-      if (f2.cut) info.nontrivial = true;
-    }
-  }
+  if (fs.ptr || fs.cut) info.nontrivial = true;
   return "";
 }
 
@@ -446,7 +447,7 @@ SubDef def = [] {
     auto tmplOp = mkop(TMPL, {range(0, 3), range(0, 4), range(0, 7)});
     auto sweepOp = mkop(SWEEP, {});
     auto cfgOp = mkop(CFG, {rc::gen::weightedOneOf<int64_t>({{3, range(1, 3)}, {1, rc::gen::just<int64_t>(0)}}),
-                            rc::gen::weightedOneOf<int64_t>({{400, rc::gen::just<int64_t>(0)}, {1, rc::gen::just<int64_t>(1)}})});
+                            rc::gen::weightedOneOf<int64_t>({{1500, rc::gen::just<int64_t>(0)}, {1, rc::gen::just<int64_t>(1)}})});
     // (i) a canonical reply, possibly followed by more records and then damaged
     auto tail = rc::gen::weightedOneOf<Op>({{3, rrOp}, {3, nameOp(termCommon)}, {3, nameOp(termHostile)}, {2, truncOp}, {2, pokeOp}, {1, hdrOp}, {1, rawOp}, {1, sweepOp}});
     auto shapeTmpl = scenarioOf(fixedOps({cfgOp, hdrOp, tmplOp}), rc::gen::resize(6, opsOf(tail)));
